@@ -87,16 +87,18 @@ Section Nesterov.
   | EOmega (omega : F)             (* line 159: omega > upper_bound *)
   | EConverged (ray_len : F)       (* line 176: cv_check_passed, not accelerating *)
   | EInside                        (* line 199: projection reports inside, or ray_len == 0 *)
-  | EMaxIter.                      (* while condition fails: locals keep their initial values *)
+  | EMaxIter (ray_len : F).        (* while condition fails (commit b028d6b): distance = ray_len - inflation *)
 
-  (** (inside, distance) as returned, lines 136-137, 160-161, 182-184, 200-201, 122-125 *)
+  (** (inside, distance) as returned: lines 136-137, 160-161, 182-184, 200-201 and the cap exit after the loop
+      (`if i >= max_interations: distance = ray_len - inflation; inside = distance < tolerance`, commit b028d6b).
+      Model/NesterovLoop.v produces the [inner_exit] and uses THIS function for every exit. *)
   Definition finish (tolerance infl : F) (e : inner_exit) : bool * F :=
     match e with
     | ERayShort => (true, - infl)
     | EOmega omega => (false, omega - infl)
     | EConverged ray_len => let distance := ray_len - infl in (distance <? tolerance, distance)
     | EInside => (true, - infl - one)
-    | EMaxIter => (false, zero)
+    | EMaxIter ray_len => let distance := ray_len - infl in (distance <? tolerance, distance)
     end.
 
   (** [gjk_nesterov_accelerated_distance]: [max(gjk_nesterov_accelerated(c1, c2)[1], 0.0)] *)
